@@ -97,7 +97,9 @@ int valid_hide(object ob) { return 1; }
 int valid_link(string a, string b) { return 1; }
 string get_save_file_name(string f) { return f + ".edsave"; }
 string make_path_absolute(string f) { return f; }
-void log_error(string file, string msg) { }
+string *compile_errors = ({ });
+void log_error(string file, string msg) { if (sizeof(compile_errors) < 20) compile_errors += ({ msg }); }
+string *verif_take_compile_errors() { string *e = compile_errors; compile_errors = ({ }); return e; }
 void crash(string msg, object cg, object co) { }
 string *epilog(int x) { return ({ }); }
 void preload(string f) { }
